@@ -10,7 +10,8 @@
    Every theorem has the premise that the run returns Ok; Props/C03.v proves that it does on the whole domain. *)
 From Coq Require Import ZArith Bool List Lia.
 From TV Require Import Model.PlacementBase Gen.PlacementGen Model.Placement
-  Proofs.PlacementTables Proofs.PlacementMatrix Proofs.PlacementProofs Proofs.PlacementTotal.
+  Proofs.PlacementTables Proofs.PlacementMatrix Proofs.PlacementProofs Proofs.PlacementTotal
+  Model.PlacementDomainB Proofs.PlacementGeneral.
 Import ListNotations.
 Open Scope Z_scope.
 
@@ -105,6 +106,77 @@ Proof.
   cbn. repeat split; try reflexivity. lia.
 Qed.
 
+(* ---- the same with the bound as a PARAMETER B (Model/PlacementDomainB.v, notes/PLACEMENT-B.md): in_domain_B B = explicit counts
+   0..B, lines in [-B, B] including 0, spans in [1, B].  The four clauses (GIVEN that the run returned Ok) need only
+   clause_bound_ok B := 2 <= B /\ 16 * B <= 32767, for ANY number of children; that the run returns Ok needs
+   bound_ok B n := 2 <= B /\ 2 * B * n + 16 * B <= 32767 (Props/C03.v: C03_placement_total_general).  The pinned theorems above
+   are the instance B = 64, n <= 64 (C03_placement_in_domain_is_instance). *)
+Theorem C08_every_child_placed_general : forall B ec er fl children o, clause_bound_ok B -> in_domain_B B ec er children ->
+  grid_placement_run ec er fl children = Ok o ->
+  map p_index (o_items o) = map fst (in_flow_children children).
+Proof. exact every_child_placed_general. Qed.
+
+Theorem C08_area_in_range_general : forall B ec er fl children o, clause_bound_ok B -> in_domain_B B ec er children ->
+  grid_placement_run ec er fl children = Ok o ->
+  forall p, In p (o_items o) ->
+    1 <= p_row_start p /\ p_row_start p < p_row_end p /\ p_row_end p <= tlen (o_rows o) + 1 /\
+    1 <= p_col_start p /\ p_col_start p < p_col_end p /\ p_col_end p <= tlen (o_cols o) + 1.
+Proof. exact area_in_range_general. Qed.
+
+Theorem C08_explicit_honoured_general : forall B ec er fl children o, clause_bound_ok B -> in_domain_B B ec er children ->
+  grid_placement_run ec er fl children = Ok o ->
+  forall p k c, In p (o_items o) -> nth_error children (Z.to_nat (p_index p)) = Some (k, c) ->
+    (forall a b, expected (c_row c) er = Some (a, b) ->
+       p_row_start p = a + tc_neg (o_rows o) + 1 /\ p_row_end p = b + tc_neg (o_rows o) + 1) /\
+    (forall a b, expected (c_col c) ec = Some (a, b) ->
+       p_col_start p = a + tc_neg (o_cols o) + 1 /\ p_col_end p = b + tc_neg (o_cols o) + 1).
+Proof. exact explicit_honoured_general. Qed.
+
+Theorem C08_auto_no_overlap_general : forall B ec er fl children o, clause_bound_ok B -> in_domain_B B ec er children ->
+  grid_placement_run ec er fl children = Ok o ->
+  forall p q k c, In p (o_items o) -> In q (o_items o) -> p_index p <> p_index q ->
+    nth_error children (Z.to_nat (p_index p)) = Some (k, c) ->
+    is_definite (c_row c) && is_definite (c_col c) = false ->
+    ~ overlap p q.
+Proof. exact auto_no_overlap_general. Qed.
+
+Theorem C08_placement_succeeds_with_all_clauses_general : forall B ec er fl children,
+  bound_ok B (length children) -> in_domain_B B ec er children ->
+  exists o, grid_placement_run ec er fl children = Ok o /\
+    map p_index (o_items o) = map fst (in_flow_children children) /\
+    (forall p, In p (o_items o) ->
+       1 <= p_row_start p /\ p_row_start p < p_row_end p /\ p_row_end p <= tlen (o_rows o) + 1 /\
+       1 <= p_col_start p /\ p_col_start p < p_col_end p /\ p_col_end p <= tlen (o_cols o) + 1) /\
+    (forall p q k c, In p (o_items o) -> In q (o_items o) -> p_index p <> p_index q ->
+       nth_error children (Z.to_nat (p_index p)) = Some (k, c) ->
+       is_definite (c_row c) && is_definite (c_col c) = false -> ~ overlap p q).
+Proof.
+  intros B ec er fl children Hb Hdom. destruct (placement_total_general B ec er fl children Hb Hdom) as [o Ho].
+  pose proof (bound_ok_clause _ _ Hb) as Hc.
+  exists o. split; [exact Ho|]. split; [eapply every_child_placed_general; eauto|].
+  split; [intros; eapply area_in_range_general; eauto|intros; eapply auto_no_overlap_general; eauto].
+Qed.
+
+(* non-vacuity beyond the pinned domain: B = 200, a run with lines +-200 and a span of 150 (checked by vm_compute) *)
+Definition ex_children_B : list (child_kind * child) :=
+  [ (InFlow, mkChild (mkLn Auto (Line (-200))) (mkLn (Line 200) (Span 150)));
+    (InFlow, mkChild (mkLn Auto Auto) (mkLn (Span 120) Auto)) ].
+Example C08_general_example :
+  bound_ok 200 (length ex_children_B) /\ in_domain_B 200 100 7 ex_children_B /\ ~ in_domain 100 7 ex_children_B /\
+  exists o, grid_placement_run 100 7 FRow ex_children_B = Ok o /\ length (o_items o) = 2%nat.
+Proof.
+  split; [unfold bound_ok, ex_children_B; cbn [length]; lia|]. split.
+  { unfold in_domain_B, ex_children_B. split; [lia|]. split; [lia|].
+    repeat constructor; cbn [snd c_row c_col l_start l_end gp_okB]; lia. }
+  split; [unfold in_domain; intros (H & _); lia|].
+  eexists. split; [vm_compute; reflexivity|reflexivity].
+Qed.
+
+Print Assumptions C08_every_child_placed_general.
+Print Assumptions C08_area_in_range_general.
+Print Assumptions C08_explicit_honoured_general.
+Print Assumptions C08_auto_no_overlap_general.
+Print Assumptions C08_placement_succeeds_with_all_clauses_general.
 Print Assumptions C08_every_child_placed.
 Print Assumptions C08_area_in_range.
 Print Assumptions C08_explicit_honoured.
